@@ -3,7 +3,7 @@
 # (suite included), PAR at a time; records meta.final_verification; prints one line per seed.
 cd "$(dirname "$0")/.."
 PAR=${1:-3}
-ls seeded | xargs -P $PAR -I{} sh -c 'tools/seedtest.py seeded/{} {} --final > /tmp/fs_{}.json 2>&1'
+ls seeded | xargs -P $PAR -I{} sh -c 'tools/seedtest.py $PWD/seeded/{} {} --final > /tmp/fs_{}.json 2>&1'
 for n in $(ls seeded); do /venv/bin/python -c "
 import json
 m=json.load(open('seeded/$n/meta.json')); f=m.get('final_verification',{})
